@@ -249,7 +249,28 @@ func mapCase(src interface{}, rm valid.RM, local map[string]string, tags []strin
 }
 
 func urlCase(src interface{}, rm valid.RM, tags []string, probe string) Case {
-	impl := observed(nil, []map[string]string{rm}, func() string { return guard(func() string { return errStr(valid.Url(src, rm)) }) })
+	return urlCaseFns(src, rm, nil, tags, probe)
+}
+
+// urlCaseFns: Url with per-call functions (NewVUrl().SetRule(rm).SetValidFn(…).Valid(src); UrlForFn for a single one without rules)
+func urlCaseFns(src interface{}, rm valid.RM, local map[string]string, tags []string, probe string) Case {
+	impl := observed(nil, []map[string]string{rm}, func() string {
+		return guard(func() string {
+			if len(local) == 0 {
+				return errStr(valid.Url(src, rm))
+			}
+			if len(rm) == 0 && len(local) == 1 {
+				for n, mk := range local {
+					return errStr(valid.UrlForFn(src, n, markerFn(mk)))
+				}
+			}
+			vu := valid.NewVUrl().SetRule(rm)
+			for n, mk := range local {
+				vu.SetValidFn(n, markerFn(mk))
+			}
+			return errStr(vu.Valid(src))
+		})
+	})
 	var s string
 	switch v := src.(type) {
 	case nil:
@@ -268,7 +289,7 @@ func urlCase(src interface{}, rm valid.RM, tags []string, probe string) Case {
 	r := encodeRM(rm)
 	return Case{
 		OpFn: func(ext string) string {
-			return "url " + r + " " + N("lfns") + " " + encodeFns("gfns", globalFns) + " " + ext + " " + s + probe
+			return "url " + r + " " + encodeFns("lfns", local) + " " + encodeFns("gfns", globalFns) + " " + ext + " " + s + probe
 		},
 		Impl: impl, Tags: tags, Nontrivial: impl != "nil",
 	}
